@@ -170,7 +170,7 @@ func generate(r *rng.R, thorough bool, index int) *history {
 	var workers []workerJSON
 	nw := 1 + r.Intn(6)
 	if policy {
-		nw = 1 + r.Intn(2)
+		nw = 1 + r.Intn(3)
 	}
 	for i := 0; i < nw; i++ {
 		var sk skeyJSON
@@ -284,7 +284,18 @@ func generate(r *rng.R, thorough bool, index int) *history {
 				// now and then a duplicate of an earlier request (same digest and
 				// instance name, usually another invocation): deduplication onto a
 				// task that is already executing changes its invocations' scores
-				if len(policyUsed) > 0 && r.Chance(20) {
+				var executing []usedDigest
+				for _, o := range last.Operations {
+					if o.CurrentWorker != "" && !o.HasResponse {
+						ui, ud := parseDigestKey(o.ActionDigestHash)
+						executing = append(executing, usedDigest{ud, ui})
+					}
+				}
+				if len(executing) > 0 && r.Chance(25) {
+					// deduplicate onto a task that is executing right now
+					u := executing[r.Intn(len(executing))]
+					dg, inst = u.d, u.inst
+				} else if len(policyUsed) > 0 && r.Chance(10) {
 					u := policyUsed[r.Intn(len(policyUsed))]
 					dg, inst = u.d, u.inst
 				} else {
